@@ -81,7 +81,10 @@ func r06_1(c *Ctx, rule string) {
 	// the counter cell: a captured variable or a field of a captured state
 	// object, identified by the allocation it lives in
 	ld, _ := eng.Strip(upd.Key).(*ssa.UnOp)
-	cell := c.P.LoadedCell(upd.Key)
+	cell := ""
+	if ld != nil {
+		cell = c.P.LoadedCell(ld) // (the key may reach the update through a helper's parameter)
+	}
 	if ld == nil || cell == "" {
 		c.R.Undecided(rule, base+"/id-counter", c.pos(upd), "the key of the sender.files update is not a load of a counter variable that can be traced to one allocation; shape not interpreted")
 		return
